@@ -17,7 +17,11 @@ def weq(a, b):
     """weights are equal up to the last bits (sums of non-dyadic floats may be associated differently)"""
     if a == b:
         return True
+    if isinstance(a, int) and isinstance(b, int):
+        return False  # integers are exact, however large
     try:
+        if (isinstance(a, int) or isinstance(b, int)) and abs(a) >= 2 ** 53:
+            return False  # an integer weight beyond 2**53 that came back as the nearest float is a changed weight
         return math.isclose(a, b, rel_tol=1e-12, abs_tol=0.0)
     except TypeError:
         return False
